@@ -1369,6 +1369,85 @@ def check_reuse_sources(case):
                 + (["shifted-grid"] if any(r["shift"] for r in case["runs"]) else []))
 
 
+# ------------------------------------------------------------------ several satellites followed together from one station
+
+
+@st.composite
+def lockstep_case(draw, shard, tier):
+    """2-3 DIFFERENT trajectories watched from the same station over the same date grid, each with its OWN listener
+    objects, the iterations advanced in turns (one item each, or a drawn pattern)."""
+    base = draw(reuse_sources_case(shard, tier))
+    base["pattern"] = draw(st.lists(st.integers(1, 3), min_size=1, max_size=4))
+    base["chained"] = draw(st.booleans())
+    return base
+
+
+def check_lockstep(case):
+    what = describe(case) + f" with {len(case['variants'])} trajectories followed together"
+    station_orbit = {k: case[k] for k in ("prop", "el", "tle", "mjd", "sec", "offset", "step", "n") if k in case}
+    vcases = []
+    for v in case["variants"]:
+        vc = {kk: vv for kk, vv in case.items() if kk not in ("el", "tle", "prop", "variants", "runs")}
+        vc.update(v, station_orbit=station_orbit, listeners_as="list", range_as="start-stop-step")
+        vcases.append(vc)
+    solo = []
+    for vc in vcases:
+        src, _ = make_source(vc)
+        _, lis = make_listeners(vc)
+        solo.append([(it.us, it.label, it.lis) for it in run_stream(src, vc, lis)])
+    start, stop, step = grid(vcases[0])
+    gens = []
+    for vc in vcases:
+        src, _ = make_source(vc)
+        _, lis = make_listeners(vc)
+        gens.append((src.iter(start=start, stop=stop, step=step, listeners=list(lis)), lis))
+    got = [[] for _ in gens]
+    alive = [True] * len(gens)
+    pattern = case.get("pattern") or [1]
+    turn = 0
+    while any(alive):
+        j = turn % len(gens)
+        for _ in range(pattern[(turn // len(gens)) % len(pattern)]):
+            if not alive[j]:
+                break
+            o = next(gens[j][0], None)
+            if o is None:
+                alive[j] = False
+                break
+            it = Item(o, start, gens[j][1])
+            got[j].append((it.us, it.label, it.lis))
+        turn += 1
+        if turn > 20000:
+            raise Violation("stream-runaway", f"{what}: iterations advanced in turns do not end")
+    for j in range(len(gens)):
+        if got[j] != solo[j]:
+            a = [x for x in got[j] if x[1] is not None]
+            b = [x for x in solo[j] if x[1] is not None]
+            raise Violation("followed-together", f"{what}: trajectory #{j} followed in turns with the others gives {len(got[j])} "
+                                                  f"items, events {a[:4]}; followed alone {len(solo[j])} items, events {b[:4]}",
+                            trajectory=j)
+    n_ev = sum(1 for g in got for x in g if x[1] is not None)
+    cls = classes_of(case, dict(events=n_ev, multi=False, skipped=0)) + [f"trajectories:{len(gens)}"]
+    if case.get("chained") and len(vcases) >= 2:
+        # chained windows: trajectory B watched (fresh listeners) from the very date at which the watch of A ended
+        vb = dict(vcases[1], offset=vcases[1]["offset"] + (vcases[1]["n"] - 0) * vcases[1]["step"])
+        srcb, _ = make_source(vb)
+        _, lisb = make_listeners(vb)
+        ref = [(it.us, it.label, it.lis) for it in run_stream(srcb, vb, lisb)]
+        srca, _ = make_source(vcases[0])
+        _, lisa = make_listeners(vcases[0])
+        run_stream(srca, vcases[0], lisa)
+        srcb2, _ = make_source(vb)
+        _, lisb2 = make_listeners(vb)
+        after = [(it.us, it.label, it.lis) for it in run_stream(srcb2, vb, lisb2)]
+        if after != ref:
+            raise Violation("followed-after", f"{what}: trajectory #1 watched from the date where the watch of #0 ended gives "
+                                              f"{[x for x in after if x[1] is not None][:4]}, without that earlier watch "
+                                              f"{[x for x in ref if x[1] is not None][:4]}")
+        cls.append("chained-window")
+    return dict(nt=n_ev > 0, cls=cls)
+
+
 # ------------------------------------------------------------------ find_event / events_iterator
 
 
@@ -1817,6 +1896,9 @@ FACETS = [
     Facet("reuse_other_trajectory", reuse_sources_case, check_reuse_sources, setup=setup, shrink_quick=False,
           rule="the same listener objects served at least two different trajectories and at least one event occurred",
           quick=(6, 2), thorough=(32, 8)),
+    Facet("followed_together", lockstep_case, check_lockstep, setup=setup, shrink_quick=False,
+          rule="two or three different trajectories watched from one station over the same dates, advanced in turns; at least one event",
+          quick=(8, 5), thorough=(32, 12)),
     Facet("find_event", find_case, check_find, setup=setup, shrink_quick=False,
           rule="at least one query that has an answer in the stream", quick=(6, 5), thorough=(16, 40)),
     Facet("restart_from_yielded_state", restart_case, check_restart, setup=setup, shrink_quick=False,
